@@ -57,11 +57,13 @@ def free_names(node) -> Set[str]:
 def escapes(c: Closure, p: Path) -> Optional[str]:
     """How a closure leaves the invocation that created it, if it does."""
     needle = ('closure', c.qual, c.cid)
-    if om.mentions(p.outcome[1], needle):
-        return 'returned'
+    # parked on a longer-lived object: the more durable way out, reported even when the closure is returned as well
     for e in p.events:
         if e.kind in ('store_attr', 'store_sub', 'global_store') and om.mentions(freeze(e.value), needle):
             return 'stored by `%s`' % e.text()
+    if om.mentions(p.outcome[1], needle):
+        return 'returned'
+    for e in p.events:
         if e.kind == 'call' and not e.d.get('inlined') and (
                 om.mentions(freeze(e.args), needle) or om.mentions(freeze(e.kwargs), needle)):
             f = freeze(e.func)
